@@ -14,7 +14,7 @@ from oqv import abseval as ae
 from oqv.astutil import branch_context, call_name, method_call
 from oqv.cfg import CFG
 from oqv.dataflow import DefUse, depends_on, expand
-from oqv.model import AnalysisError, Program, Unit, dotted, norm, walk_local
+from oqv.model import AnalysisError, Program, Unit, dotted, norm, walk_local, kw_of
 from oqv.report import Check
 
 PT = "process_tensor"
@@ -101,7 +101,7 @@ def _ctor_kwargs(unit: Unit, ctor: str) -> Optional[ast.Call]:
 
 
 def _check_meta(chk, unit, call: ast.Call, src_root: str, label: str, rule="X2"):
-    got = {k.arg: k.value for k in call.keywords if k.arg}
+    got = kw_of(call)
     for field, names in META.items():
         v = got.get(field)
         ok = v is not None and (dotted(v) or "").startswith(src_root + ".") and \
@@ -322,8 +322,8 @@ def x3(prog: Program, chk: Check) -> None:
             chk.add("X3", su, f"FileProcessTensor.{grp}: delegates to _set/_get_data_and_shape",
                     False, "setter/getter no longer delegate to the paired helpers")
             continue
-        ks = {k.arg: norm(k.value) for k in sc[0].keywords}
-        kg = {k.arg: norm(k.value) for k in gc[0].keywords}
+        ks = {k_: norm(v_) for k_, v_ in kw_of(sc[0]).items()}
+        kg = {k_: norm(v_) for k_, v_ in kw_of(gc[0]).items()}
         ok = ks.get("data") == kg.get("data") and ks.get("shape") == kg.get("shape") \
             and ks.get("data", "").endswith("_data") and ks.get("shape", "").endswith("_shape") \
             and ks["data"][:-5] == ks["shape"][:-6] and grp.split("_")[0] in ks["data"]
@@ -461,6 +461,8 @@ def transform_signatures(u: Unit, transformed: bool):
     memo_attrs = {dotted(t.value) for st in walk_local(u.node) if isinstance(st, ast.Assign)
                   for t in st.targets if isinstance(t, ast.Subscript)
                   and (dotted(t.value) or "").startswith("self.")}
+    from rules.c20 import slot_memos
+    slot_attrs = {attr for (_, attr, _, _, _) in slot_memos(u)}
     for path in _paths(g):
         if any(not feas(path[i][0], path[i + 1][0], path[i + 1][1]) for i in range(len(path) - 1)):
             continue
@@ -495,7 +497,7 @@ def transform_signatures(u: Unit, transformed: bool):
                 env[n.ast.targets[0].id] = ti.evaluate(n.ast.value, atom)
             if isinstance(n.ast, ast.Return) and n.ast.value is not None:
                 rv = n.ast.value
-                if isinstance(rv, ast.Subscript) and dotted(rv.value) in memo_attrs:
+                if isinstance(rv, ast.Subscript) and dotted(rv.value) in memo_attrs | slot_attrs:
                     result = "memo hit"       # served from a memo filled by a miss path
                     continue
                 v = ti.evaluate(rv, atom)
@@ -576,8 +578,7 @@ def raw_discipline(prog: Program):
     im = prog.unit(f"{PT}:import_process_tensor")
     for c in walk_local(im.node):
         if isinstance(c, ast.Call) and method_call(c) and method_call(c)[1] == "get_mpo_tensor":
-            tv = next((k.value for k in c.keywords if k.arg == "transformed"),
-                      c.args[1] if len(c.args) > 1 else None)
+            tv = kw_of(c).get("transformed", c.args[1] if len(c.args) > 1 else None)
             ok = isinstance(tv, ast.Constant) and tv.value is False
             out.append((im, f"import: {norm(c)}", ok,
                         "raw tensors are copied" if ok else
@@ -608,15 +609,15 @@ def x6(prog: Program, chk: Check) -> None:
     chk.saw(b, db.cfg)
 
     def val(du, call, field):
-        for k in call.keywords:
-            if k.arg == field:
-                nid = du.node_of(call)
-                defs = du.reaching(nid, k.value.id) if isinstance(k.value, ast.Name) else []
-                if defs:
-                    return sorted(norm(expand(du, d.node, d.value)) if d.value is not None
-                                  else "<param>" for d in defs)
-                return [norm(k.value)]
-        return None
+        v = kw_of(call).get(field)
+        if v is None:
+            return None
+        nid = du.node_of(call)
+        defs = du.reaching(nid, v.id) if isinstance(v, ast.Name) else []
+        if defs:
+            return sorted(norm(expand(du, d.node, d.value)) if d.value is not None
+                          else "<param>" for d in defs)
+        return [norm(v)]
     for field in META:
         va, vb = val(da, ca, field), val(db, cb, field)
         chk.add("X6", b, f"{field}: {va}", va is not None and va == vb,
@@ -721,6 +722,28 @@ def x9(prog: Program, chk: Check) -> None:
     moves_keep_values(prog, chk, "X9")
 
 
+def x10(prog: Program, chk: Check) -> None:
+    chk.rule("X10", "a file-backed process tensor answers every request from its file as the "
+             "request asks: no getter of the process-tensor classes serves a remembered value "
+             "(dict memo, lazily set attribute, single-slot 'last result' memo) that leaves an "
+             "argument of the request out of its key - e.g. the `transformed` flag, which would "
+             "hand out the raw tensor where the rotated one was asked for right after a raw "
+             "read of the same step", floor=1)
+    from rules.c20 import memo_findings
+    units = [u for u in prog.units_in("process_tensor") if not isinstance(u.node, ast.Lambda)
+             and u.cls is not None]
+    n = 0
+    for (u, node, construct, missing) in memo_findings(prog, units):
+        n += 1
+        chk.saw(u)
+        chk.add("X10", u, construct, not missing,
+                "identified by everything it depends on" if not missing else
+                f"the remembered value depends on {missing}, which is not part of the key: the "
+                f"imported process tensor is not used like the original", node)
+    chk.add("X10", prog.module("process_tensor"), f"{len(units)} methods scanned, {n} memo idiom(s)",
+            len(units) >= 40, "" if len(units) >= 40 else "the module shrank")
+
+
 def run(prog: Program, chk: Check) -> None:
     chk.explanation = (
         "Decides the structural clauses of C16: writer/reader key-table agreement (X1), field "
@@ -741,3 +764,4 @@ def run(prog: Program, chk: Check) -> None:
     chk.call(x7, prog, chk)
     chk.call(x8, prog, chk)
     chk.call(x9, prog, chk)
+    chk.call(x10, prog, chk)
